@@ -11,11 +11,66 @@ ALLOWED_AXIOMS = {'propext', 'Classical.choice', 'Quot.sound'}
 FORBIDDEN = re.compile(r'\bsorry\b|\badmit\b|^axiom |native_decide|bv_decide|implemented_by|\bunsafe |maxHeartbeats 0')
 TRUSTED_BASE = [
     'Lean 4.33 kernel (thorough tier: re-checked with leanchecker)',
-    'axioms allowed: propext, Classical.choice, Quot.sound (audited with #print axioms on every run)',
+    'axioms allowed: propext, Classical.choice, Quot.sound (audited on every run: #print axioms for the listed theorems, and a traversal of every constant of every imported DsdVerif module)',
     'translator/gen.py (Python ast/symtable transcription of tables and name references)',
     'correspondence harness (differential testing of Lean model vs. /repo working tree)',
     'CPython 3.12 / pyparsing 3.3.2 semantics are modelled, not verified',
 ]
+
+
+AUDIT_ALL = r"""
+open Lean Elab Command
+
+partial def axOf (env : Environment) (c : Name) : StateM (Std.HashMap Name (Array Name)) (Array Name) := do
+  match (← get)[c]? with
+  | some r => return r
+  | none =>
+    modify (·.insert c #[])
+    match env.find? c with
+    | none => return #[]
+    | some ci =>
+      let r ← match ci with
+        | .axiomInfo _ => pure #[c]
+        | _ => do
+          let vals : Array Name := match ci with
+            | .defnInfo v => v.value.getUsedConstants
+            | .thmInfo v => v.value.getUsedConstants
+            | .opaqueInfo v => v.value.getUsedConstants
+            | _ => #[]
+          let used := ci.type.getUsedConstants ++ vals
+          let mut acc : Array Name := #[]
+          for d in used do
+            for a in (← axOf env d) do
+              if !acc.contains a then acc := acc.push a
+          pure acc
+      modify (·.insert c r)
+      return r
+
+elab "#audit_all" : command => do
+  let env ← getEnv
+  let allowed : List Name := [``propext, ``Classical.choice, ``Quot.sound]
+  let mut st : Std.HashMap Name (Array Name) := {}
+  let mut nconst := 0
+  let mut nthm := 0
+  let mut axs : Array Name := #[]
+  let mut off : Array Name := #[]
+  for (c, ci) in env.constants.map₁.toList do
+    match env.getModuleIdxFor? c with
+    | none => pure ()
+    | some idx =>
+      let m := env.header.moduleNames[idx.toNat]!
+      if (`DsdVerif).isPrefixOf m then
+        nconst := nconst + 1
+        if ci matches .thmInfo _ then nthm := nthm + 1
+        let (r, st') := (axOf env c).run st
+        st := st'
+        for a in r do
+          if !axs.contains a then axs := axs.push a
+        if r.any (fun a => !allowed.contains a) then off := off.push c
+  logInfo m!"AUDIT-ALL constants={nconst} theorems={nthm} axioms={axs.toList} offenders={off.toList.take 20}"
+
+#audit_all
+"""
 
 
 class Infra(Exception):
@@ -61,6 +116,7 @@ class ProofSide:
         self.problems = []              # list of dicts {kind, detail}
         self.gen_report = {}
         self.axioms = {}                # theorem -> list of axioms
+        self.audit_all = None           # axioms of EVERY constant of the imported DsdVerif modules
         self.build_s = 0.0
 
     def run(self, leanchecker=False):
@@ -113,8 +169,8 @@ class ProofSide:
     def audit(self):
         if not self.theorems:
             return
-        src = '\n'.join('import %s' % m for m in self.modules) + '\n' + \
-              '\n'.join('#print axioms %s' % t for t in self.theorems) + '\n'
+        src = '\n'.join('import %s' % m for m in self.modules) + '\nimport Lean\n' + \
+              '\n'.join('#print axioms %s' % t for t in self.theorems) + '\n' + AUDIT_ALL
         path = os.path.join(LEAN, '.lake', 'audit_%s_%d.lean' % (self.prop, os.getpid()))
         with open(path, 'w') as f:
             f.write(src)
@@ -125,6 +181,17 @@ class ProofSide:
             return
         # "'X' depends on axioms: [a, b]"  or "'X' does not depend on any axioms"
         text = out.replace('\n ', ' ')
+        # every constant (definition, theorem, helper lemma, auto-generated proof) of every DsdVerif module the property's
+        # module imports: the union of the axioms they depend on, and those that depend on anything else
+        m = re.search(r'AUDIT-ALL constants=(\d+) theorems=(\d+) axioms=\[([^\]]*)\] offenders=\[([^\]]*)\]', text)
+        if not m:
+            self.problem('audit', 'no AUDIT-ALL line in the audit output: ' + text[-500:])
+        else:
+            self.audit_all = {'constants': int(m.group(1)), 'theorems': int(m.group(2)),
+                              'axioms': sorted(a.strip() for a in m.group(3).split(',') if a.strip())}
+            bad = [a for a in self.audit_all['axioms'] if a not in ALLOWED_AXIOMS]
+            if bad or m.group(4).strip():
+                self.problem('audit', 'constants of the imported DsdVerif modules depend on disallowed axioms %s: %s' % (bad, m.group(4).strip()[:600]))
         for t in self.theorems:
             m = re.search(r"'%s' depends on axioms: \[([^\]]*)\]" % re.escape(t), text)
             if m:
@@ -322,6 +389,7 @@ def finish(res, proof, wall_s, level_note):
             ' '.join(proof.modules), ' && lake env leanchecker' if getattr(proof, 'leanchecker', False) else ''),
         'trusted_base': TRUSTED_BASE,
         'theorems': obl,
+        'all_constants_audit': proof.audit_all,
         'gen_files': {k: v.get('sha256') for k, v in proof.gen_report.get('files', {}).items() if k in proof.gen_files},
         'proof_problems': proof.problems,
         'evaluations': res.evaluations, 'distinct_nontrivial': len(res.nontrivial), 'rule': res.rule,
